@@ -36,6 +36,17 @@ class BotConn:
         self.out += self.frame(message, in_response_to, context)
         self.bot.k.wake(self.bot, self.bot.k.now)
 
+    def offer_block(self, block):
+        """The bulk-download way of delivering a block: announce it, be asked for it, serve it (the node takes only
+        blocks it requested from this peer for bulk-download data)."""
+        from skepticoin.networking import messages as M
+        bid = block.hash()
+        serve = self.bot.b.get('serve')
+        if serve is None:
+            serve = self.bot.b['serve'] = {'blocks': {}, 'chain': []}
+        serve['blocks'][bid] = block
+        self.send(M.InventoryMessage([M.InventoryItem(M.DATA_BLOCK, bid)]))
+
     def send_raw(self, data: bytes):
         self.out += data
         self.bot.k.wake(self.bot, self.bot.k.now)
